@@ -126,8 +126,12 @@ def pairs(repo, groups):
         if base is None or base not in byname:
             continue
         heavy = base in ("Mul", "Div", "Mod")
-        if heavy and mode in ("MODE_FLOATS", "MODE_PROMOTED"):
-            continue            # float * / % : CBMC's float multiplier/divider/fmod do not finish (stated outside the claim)
+        if heavy and mode == "MODE_FLOATS":
+            continue            # float * / % on two symbolic floats: CBMC's float multiplier/divider/fmod do not finish (outside the claim)
+        if base == "Mod" and mode == "MODE_PROMOTED":
+            continue            # fmod
+        if heavy and mode == "MODE_PROMOTED":
+            mode = "MODE_PROMOTED_SMALL_RIGHT"
         if heavy and mode == "MODE_ANY":
             mode = "MODE_NOFLOAT"
         if base in ("Eq", "Ne"):
